@@ -162,6 +162,13 @@ Proof.
   exists eaddr, sig, gs, a. auto 10.
 Qed.
 
+(* Cleanup keeps exactly the entries the expiry test does not select, and never adds one *)
+Theorem C03_cleanup_exact : forall now t a r', In (a, r') (cleanup now t) ->
+  exists r, In (a, r) t /\ forall p v, In (p, v) r' <-> In (p, v) r /\ gst_expired (now - hv_ts v) = false.
+Proof.
+  intros now t a r' H. apply cleanup_In in H as (r & Hin & ->). exists r. split; [exact Hin|]. intros p v. apply cleanup_row_In.
+Qed.
+
 (* the dispatch switch of p2p.Run has the shape the model assumes (extractor p2p_verify; the loop itself cannot run here) *)
 Example C03_dispatch_shape : p2p_dispatch_shape_ok = true.
 Proof. reflexivity. Qed.
@@ -173,13 +180,13 @@ Definition ex_recover (h s : bytes) : option bytes := Some (firstn 20 s).
 Definition ex_A : bytes := repeat x0a 20.
 Definition ex_B : bytes := repeat x0b 20.
 Definition ex_sig (a : bytes) : bytes := a ++ repeat x00 45.
-Definition ex_hb : bytes := repeat x01 24.      (* 10 + 24 = 34 *)
-Definition ex_short : bytes := repeat x01 23.   (* 10 + 23 = 33 *)
-Definition ex_req : bytes := repeat x02 7.      (* 27 + 7 = 34 *)
+Definition ex_hb : bytes := repeat x01 60.      (* 10 + 60 signed bytes: above any floor near 34 *)
+Definition ex_short : bytes := repeat x01 5.    (* 10 + 5 = 15 signed bytes: below 32, so below every admissible floor *)
+Definition ex_req : bytes := repeat x02 40.     (* 27 + 40 *)
 Definition ex_dec (b : bytes) : option Z := Some 5.
 Definition ex_peer (k : nat) : bytes := [x70; byte_of_Z (Z.of_nat k)].
 
-(* accepted: member A signs 34 bytes; rejected: non-member B, A's address with B's signature, 33 signed bytes, verifier of the other type *)
+(* accepted: member A signs 70 bytes; rejected: non-member B, A's address with B's signature, 15 signed bytes; no-verify flag: stored under the signer B *)
 Example C03_example_heartbeat :
   process_heartbeat ex_recover ex_keccak ex_dec [ex_A] [] (ex_peer 0) ex_A ex_hb (ex_sig ex_A) false
     = ([(ex_A, [(ex_peer 0, {| hv_payload := ex_hb; hv_ts := 5 |})])], HOk {| hv_payload := ex_hb; hv_ts := 5 |}) /\
@@ -194,17 +201,17 @@ Example C03_example_obsreq :
   process_obsreq ex_recover ex_keccak (fun _ => true) [ex_A] ex_A ex_req (ex_sig ex_A) = ROk ex_req /\
   process_obsreq ex_recover ex_keccak (fun _ => true) [ex_A] ex_B ex_req (ex_sig ex_B) = RErr ENotInSet /\
   process_obsreq ex_recover ex_keccak (fun _ => true) [ex_A; ex_B] ex_A ex_req (ex_sig ex_B) = RErr ESigner /\
-  process_obsreq ex_recover ex_keccak (fun _ => true) [ex_A] ex_A (repeat x02 6) (ex_sig ex_A) = RErr ETooShort.
+  process_obsreq ex_recover ex_keccak (fun _ => true) [ex_A] ex_A (repeat x02 2) (ex_sig ex_A) = RErr ETooShort.
 Proof. vm_compute. repeat apply conj; reflexivity. Qed.
 
-(* a history that fills guardian A's row to the cap: 20 peers send valid heartbeats, A is then removed from the set and sends again *)
+(* a history that fills guardian A's row to the cap: 60 peers send valid heartbeats, A is then removed from the set and sends again *)
 Definition ex_history : list gmsg :=
-  GSetGS [ex_A] :: map (fun k => GHeartbeat (ex_peer k) ex_A ex_hb (ex_sig ex_A)) (List.seq 0%nat 20%nat)
+  GSetGS [ex_A] :: map (fun k => GHeartbeat (ex_peer k) ex_A ex_hb (ex_sig ex_A)) (List.seq 0%nat 60%nat)
   ++ [GObsReq ex_A ex_req (ex_sig ex_A); GSetGS [ex_B]; GHeartbeat (ex_peer 99) ex_A ex_hb (ex_sig ex_A); GObsReq ex_A ex_req (ex_sig ex_A)].
 Example C03_example_history :
   let r := gossip_run ex_recover ex_keccak ex_dec (fun _ => true) false ninit ex_history in
   (match tl_get ex_A (n_tbl (fst r)) with Some row => Z.of_nat (length row) = gst_max_nodes /\ tl_get (ex_peer 99) row = None | None => False end) /\
-  nth_error (snd r) 21 = Some [FwdReq ex_req] /\ nth_error (snd r) 24 = Some [].
+  nth_error (snd r) 61 = Some [FwdReq ex_req] /\ nth_error (snd r) 64 = Some [].
 Proof. vm_compute. repeat apply conj; reflexivity. Qed.
 
 (* the observation half on a concrete state: member A's observation is recorded, B's (not in the set) changes nothing *)
@@ -224,6 +231,15 @@ Proof.
   - vm_compute. reflexivity.
   - vm_compute. reflexivity.
 Qed.
+
+(* recorded observation OUTSIDE the property (DESIGN.md 5, C03): the cap also refuses the update of a peer that is already stored,
+   so replays of one validly signed heartbeat of guardian A from MaxNodesPerGuardian peer ids make the node's own next heartbeat
+   fail (p2p.Run then panics) until the entries expire *)
+Example C03_note_own_heartbeat_refused_at_cap :
+  let ms := GSetGS [ex_A] :: map (fun k => GHeartbeat (ex_peer k) ex_A ex_hb (ex_sig ex_A)) (List.seq 0%nat (Z.to_nat gst_max_nodes))
+            ++ [GOwn ex_A (ex_peer 200) {| hv_payload := []; hv_ts := 0 |}] in
+  last (snd (gossip_run ex_recover ex_keccak ex_dec (fun _ => true) false ninit ms)) [] = [OwnPanic].
+Proof. vm_compute. reflexivity. Qed.
 
 Print Assumptions C03_obs_invalid_dropped.
 Print Assumptions C03_obs_effect_only_if_valid.
@@ -246,3 +262,4 @@ Print Assumptions C03_heartbeat_request_digest_clash_is_collision.
 Print Assumptions C03_table_bound.
 Print Assumptions C03_table_provenance.
 Print Assumptions C03_forwarded_request_valid.
+Print Assumptions C03_cleanup_exact.
